@@ -123,6 +123,83 @@ def with_history(p):
     return q
 
 
+def fresh_run(scs, opts=None, timeout=600):
+    """the scenarios, one after the other, in ONE fresh interpreter; list of (trace, extra)"""
+    import pickle
+    import subprocess
+    root = os.path.dirname(os.path.dirname(os.path.abspath(__file__)))
+    p = subprocess.run([sys.executable, "-m", "harness.fresh"], input=pickle.dumps((scs, opts or {}), protocol=2), cwd=root,
+                       env=core.env_for_repo(), stdout=subprocess.PIPE, stderr=subprocess.PIPE, timeout=timeout)
+    if p.returncode != 0:
+        return [(None, dict(error=p.stderr.decode("utf-8", "replace")[-800:]))] * len(scs)
+    return pickle.loads(p.stdout)
+
+
+def _predecessor(p, plain, impl_opts, bad):
+    """a single earlier connection q such that `q; p` in a fresh interpreter makes bad(trace, extra) true; (q, trace, extra) or None"""
+    step = max(1, len(plain) // 40)
+    cands = [q for q in (earlier_connections() + [plain[j] for j in range(0, len(plain), step)] + [p]) if "_ws_object" not in q]
+    for q in cands:
+        q0 = {k: v for k, v in q.items() if k not in ("previously", "previously_same")}
+        res = fresh_run([q0, p], impl_opts)
+        if res[1][0] is not None and bad(simnet.canon_trace(res[1][0]), res[1][1]):
+            return q0, res[1][0], res[1][1]
+    return None
+
+
+def _localise(p, sc, oracle, plain, impl_opts):
+    """a complaint was raised in a worker process that had run other connections before: make the stored scenario reproduce it
+    in a fresh interpreter -- alone, or after one earlier connection; returns (scenario to store, note)"""
+    res = fresh_run([p], impl_opts)[0]
+    if res[0] is None or oracle(sc, simnet.canon_trace(res[0]), res[1]):
+        return p, ""
+    found = _predecessor(p, plain, impl_opts, lambda tr, extra: bool(oracle(sc, tr, extra)))
+    if found is None:
+        return p, " (seen in a process that had run other connections before; alone in a fresh interpreter the scenario behaves, and no single earlier connection reproduces it)"
+    return dict(p, previously=[found[0]] + list(p.get("previously", []))), " (only after an earlier connection of the same process, stored with the scenario)"
+
+
+def _again(rep, model, name, scenarios, plain, impl, mod, oracle, project, known, impl_opts):
+    """Connections are independent of each other: one scenario in ten is run a second time, in reverse order, in the same
+    worker processes -- which by then have been through the whole family.  A run that differs from the first one means that
+    something survived in the process; a single predecessor that reproduces it in a fresh interpreter is then searched for,
+    and the pair is judged like any other scenario (oracle and model)."""
+    idx = [i for i in range(len(plain)) if i % 10 == 3 and impl[i][0] is not None and "_ws_object" not in plain[i]][:600]
+    if not idx:
+        return 0, 0
+    idx.reverse()
+    second = run_impl_many([plain[i] for i in idx], impl_opts)
+    differ = [(i, it2) for i, (it2, _) in zip(idx, second) if it2 is not None and simnet.canon_trace(it2) != simnet.canon_trace(impl[i][0])]
+    rep.count("run_again_later_in_the_same_process", name, len(idx))
+    n_viol = n_dis = 0
+    for i, it2 in differ[:3]:
+        p = plain[i]
+        base = fresh_run([p], impl_opts)[0][0]
+        if base is None:
+            continue
+        want = simnet.canon_trace(base)
+        found = _predecessor(p, plain, impl_opts, lambda tr, extra: tr != want)
+        if found is None:
+            rep.broken("family %s: a scenario gave a different trace when it was run again later in the same process (connections are not independent), but no single earlier connection reproduces it in a fresh interpreter; scenario: %s" % (
+                name, core.json.dumps(jsonable_sc(p), default=core._jsonable)[:1200]))
+            n_dis += 1
+            continue
+        q0, it3, extra3 = found
+        pq = dict(p, previously=[q0] + list(p.get("previously", [])))
+        cit = simnet.canon_trace(it3)
+        rep.add_case(fingerprint(pq))
+        complaints = oracle(scenarios[i], cit, extra3)
+        if complaints and not (known and known(scenarios[i], complaints[0])):
+            n_viol += 1
+            rep.violation("after an earlier connection of the same process: " + complaints[0], scenario=jsonable_sc(pq), expected=scenarios[i].get("_expect"),
+                          actual=dict(trace=cit[:400]), family=name)
+        elif mod[i] is not None and project(cit) != project(simnet.canon_trace(mod[i])):
+            n_dis += 1
+            rep.broken("correspondence %s: after an earlier connection of the same process the implementation's trace differs from the model's (the model treats connections as independent); scenario: %s" % (
+                name, core.json.dumps(jsonable_sc(pq), default=core._jsonable)[:1500]))
+    return n_viol, n_dis
+
+
 def run_family(rep, model, name, scenarios, oracle, project=None, rule="", known=None, impl_opts=None,
                nontrivial=None, sample_every=None):
     """scenarios: list of dicts (keys starting with '_' are intent metadata for the oracle).
@@ -153,9 +230,13 @@ def run_family(rep, model, name, scenarios, oracle, project=None, rule="", known
         complaints = oracle(sc, cit, extra)
         if complaints:
             kf = known(sc, complaints[0]) if known else None
+            note = ""
+            pstore = p
             if not kf:
                 n_viol += 1   # a known finding must not mask a model/implementation disagreement
-            rep.violation(complaints[0], scenario=jsonable_sc(p), expected=sc.get("_expect"),
+                if n_viol <= 2 and "_ws_object" not in p and "steps" in p:
+                    pstore, note = _localise(p, sc, oracle, plain, impl_opts)
+            rep.violation(complaints[0] + note, scenario=jsonable_sc(pstore), expected=sc.get("_expect"),
                           actual=dict(trace=cit[:400], extra={k: v for k, v in extra.items() if k != "request"}),
                           family=name, kf=kf)
         if mt is not None:
@@ -173,6 +254,10 @@ def run_family(rep, model, name, scenarios, oracle, project=None, rule="", known
             k += 1
         rep.broken("correspondence %s: model and implementation disagree on %d of %d scenarios; first: %s ; traces differ at item %d: impl=%r model=%r" % (
             name, n_dis, len(scenarios), core.json.dumps(jsonable_sc(p), default=core._jsonable)[:1500], k, a[k:k + 3], b[k:k + 3]))
+    if not n_viol and not n_dis:
+        v2, d2 = _again(rep, model, name, scenarios, plain, impl, mod, oracle, project, known, impl_opts)
+        n_viol += v2
+        n_dis += d2
     rep.families.append(dict(name=name, cases=len(scenarios), rule=rule, disagreements=n_dis, oracle_failures=n_viol))
     return n_viol, n_dis
 
